@@ -47,7 +47,7 @@ func genC14(t *rapid.T) *Script {
 			m := g.testRequest(id)
 			if rapid.IntRange(0, 4).Draw(t, "withHops") == 0 {
 				// the standard header's repeating group (NoHops) is present, and the TestReqID may look like one of its fields
-				m.PreSeq = append(m.PreSeq, rig.F("627", "1"), rig.F("628", "HUB"), rig.F("630", "1"))
+				m.PreSeq = append(m.PreSeq, rig.F("627", "1"), rig.F("628", "HUB"), rig.F("630", rapid.SampledFrom([]string{"1", "7", "-8", "+9", "-0", "0", "2147483648"}).Draw(t, "hopRef")))
 				if rapid.Bool().Draw(t, "hopLookalike") {
 					m.Fields[0].Val = rapid.SampledFrom([]string{"ROUTE628=LDN", "628=X", "a627=1", "x630=2"}).Draw(t, "hopLookalikeID")
 				}
